@@ -26,7 +26,7 @@ Lemma send_spec ex lpos dir rpos lo hi : backup_decide ex lpos dir rpos = BSend 
   ex = true /\ lo = fst rpos + 1 /\ lo <= hi /\ hi <= fst lpos /\ hi < lo + max_batch /\ fst rpos < fst lpos /\
   (forall t, lo <= t <= hi -> exists f, open_ltx dir t = Some f).
 Proof.
-  unfold backup_decide, max_batch. destruct ex; cbn [negb]; [|discriminate].
+  unfold backup_decide, max_batch. destruct ex; cbn [negb]; [|destruct (is_zero rpos); discriminate].
   destruct (is_zero lpos); [discriminate|]. destruct (is_zero rpos); [discriminate|].
   destruct (N.ltb_spec (fst lpos) (fst rpos)); [discriminate|].
   destruct (N.eqb_spec (fst rpos) (fst lpos)); [destruct (_ =? _); discriminate|].
